@@ -3,16 +3,19 @@
 // reference of the statement's law runs side by side with time_integration_scheme::update_nodes_positions.
 #include "sc3d.hpp"
 #include "time_integration.hpp"
+#include "local_mesh_refiner.hpp"
 using namespace vf;
 
 struct RefNode { double x[3], p[3], f[3]; bool live; };
 struct RefCell { std::vector<RefNode> n; bool is_static; double node_mass; };
 
-struct Case { int pop, fpat, ppat, coupling, dti, dampi, densi, steps; };
+struct Case { int pop, fpat, ppat, coupling, dti, dampi, densi, steps, ids = 0, slots = 0; };
+// persistent ids carried by the cells at list positions 0..n-1: start-up; after a removal at the list head; after removals in between; late in a run (ids far ahead of positions)
+static unsigned scheme_id(int scheme, unsigned i) { switch (scheme) { case 0: return i; case 1: return i + 1; case 2: return 2 * i; default: return 3 + 4 * i; } }
 static const double DTS[] = {1e-3, 0.5}, DAMPS[] = {0.1, 5.0}, DENS[] = {1.0, 1e3};
 static const char* pop_name[] = {"[epithelial octahedron]", "[epithelial octahedron, epithelial tetrahedron]", "[epithelial octahedron, epithelial tetrahedron, ECM octahedron]", "[static cube, epithelial octahedron, epithelial tetrahedron]", "[epithelial octahedron, epithelial tetrahedron, epithelial cube]"};
-static std::string case_json(const Case& c) { std::ostringstream o; o << "{\"population\":\"" << pop_name[c.pop] << "\",\"force_pattern\":" << c.fpat << ",\"momentum_pattern\":" << c.ppat << ",\"coupling\":" << c.coupling << ",\"dt\":" << DTS[c.dti] << ",\"damping\":" << DAMPS[c.dampi] << ",\"density\":" << DENS[c.densi] << ",\"steps\":" << c.steps << "}"; return o.str(); }
-static std::string case_text(const Case& c) { std::ostringstream o; o << c.pop << " " << c.fpat << " " << c.ppat << " " << c.coupling << " " << c.dti << " " << c.dampi << " " << c.densi << " " << c.steps; return o.str(); }
+static std::string case_json(const Case& c) { std::ostringstream o; o << "{\"population\":\"" << pop_name[c.pop] << "\",\"force_pattern\":" << c.fpat << ",\"momentum_pattern\":" << c.ppat << ",\"coupling\":" << c.coupling << ",\"dt\":" << DTS[c.dti] << ",\"damping\":" << DAMPS[c.dampi] << ",\"density\":" << DENS[c.densi] << ",\"persistent_ids\":\"" << scheme_id(c.ids, 0) << "," << scheme_id(c.ids, 1) << ",..\",\"free_node_slots\":" << c.slots << ",\"steps\":" << c.steps << "}"; return o.str(); }
+static std::string case_text(const Case& c) { std::ostringstream o; o << c.pop << " " << c.fpat << " " << c.ppat << " " << c.coupling << " " << c.dti << " " << c.dampi << " " << c.densi << " " << c.steps << " " << c.ids << " " << c.slots; return o.str(); }
 
 static void pattern(int pat, const double x[3], unsigned cell, unsigned node, double out[3]) {
     switch (pat) { case 0: out[0] = out[1] = out[2] = 0; break; case 1: out[0] = 1; out[1] = -1; out[2] = 0.5; break; case 2: out[0] = 1e3; out[1] = -2e3; out[2] = 0.5e3; break;
@@ -32,20 +35,25 @@ static std::vector<Group> couplings_for(int pop, int coupling) {
     return g;
 }
 
-static std::string run_case(const Case& cs, long* steps_done = nullptr) {
+static std::string run_case(const Case& cs, long* steps_done = nullptr, long* free_slots = nullptr) {
     using namespace sc; std::vector<cell_ptr> cells; char buf[400];
     auto epi = [&]() { auto t = make_cell_type(0, 3); t->mass_density_ = DENS[cs.densi]; return t; }; auto stat = [&](short g) { auto t = make_cell_type(g, 1); t->mass_density_ = DENS[cs.densi]; return t; };
     switch (cs.pop) { case 0: cells = {make_cell(octahedron(), 0, epi())}; break; case 1: cells = {make_cell(octahedron(), 0, epi()), make_cell(translated(tetrahedron(), 2.5, 0, 0), 1, epi())}; break;
         case 2: cells = {make_cell(octahedron(), 0, epi()), make_cell(translated(tetrahedron(), 2.5, 0, 0), 1, epi()), make_cell(translated(octahedron(), 0, 3, 0), 2, stat(1))}; break;
         case 3: cells = {make_cell(translated(cube12(), 0, -3, 0), 0, stat(4)), make_cell(octahedron(), 1, epi()), make_cell(translated(tetrahedron(), 2.5, 0, 0), 2, epi())}; break;
         default: cells = {make_cell(octahedron(), 0, epi()), make_cell(translated(tetrahedron(), 2.5, 0, 0), 1, epi()), make_cell(translated(cube12(), 0, 0, 2.5), 2, epi())}; }
-    for (unsigned i = 0; i < cells.size(); i++) { cells[i]->set_id(i); cells[i]->set_local_id(i); }
-    std::vector<Group> groups = couplings_for(cs.pop, cs.coupling);
+    for (unsigned i = 0; i < cells.size(); i++) { cells[i]->set_id(scheme_id(cs.ids, i)); cells[i]->set_local_id(i); }
+    // free node slots as remeshing leaves them: one real edge collapse on every non-static cell that admits one (the node list keeps the dead slot until the next rebase)
+    if (cs.slots) { local_mesh_refiner lmr(1e-3, 1e3, true); for (auto& c : cells) { if (c->is_static()) continue; for (const edge& e0 : c->get_edge_set()) { edge e = e0; bool can = false; try { can = lmr.can_be_merged(e, c); } catch (...) {} if (!can) continue; edge_set es = c->get_edge_set(); try { lmr.merge_edge(e, c, es); } catch (...) {} break; }
+            c->update_all_face_normals_and_areas(); c->area_ = c->compute_area(); c->volume_ = c->compute_volume(); } }
+    auto kth_live = [&](unsigned ci, unsigned k) { unsigned seen = 0, last = 0; for (unsigned i = 0; i < cells[ci]->node_lst_.size(); i++) if (cells[ci]->node_lst_[i].is_used_) { last = i; if (seen++ == k) return i; } return last; };
+    std::vector<Group> groups = couplings_for(cs.pop, cs.coupling); for (auto& g : groups) for (auto& mem : g) mem.second = kth_live(mem.first, mem.second);
+    { bool clash = false; for (auto& g : groups) for (auto& h : groups) if (&g != &h) for (auto& a : g) for (auto& b : h) if (a == b) clash = true; if (clash) { for (auto& c : cells) c->clear_data(); return "skip"; } }
     global_simulation_parameters sp = make_sim_params("unused", 0.3); sp.time_step_ = DTS[cs.dti]; sp.damping_coefficient_ = DAMPS[cs.dampi];
     time_integration_scheme integ(sp, false);
     // reference state
     std::vector<RefCell> ref(cells.size());
-    for (unsigned ci = 0; ci < cells.size(); ci++) { cell& c = *cells[ci]; ref[ci].is_static = c.is_static(); ref[ci].node_mass = DENS[cs.densi] * c.get_volume() / (double)c.get_nb_of_nodes(); ref[ci].n.resize(c.node_lst_.size());
+    for (unsigned ci = 0; ci < cells.size(); ci++) { cell& c = *cells[ci]; ref[ci].is_static = c.is_static(); { size_t live = 0; for (const node& n : c.node_lst_) if (n.is_used_) live++; ref[ci].node_mass = DENS[cs.densi] * c.get_volume() / (double)live; if (live < c.node_lst_.size() && free_slots) (*free_slots)++; } ref[ci].n.resize(c.node_lst_.size());
         for (unsigned ni = 0; ni < c.node_lst_.size(); ni++) { node& n = c.node_lst_[ni]; RefNode& r = ref[ci].n[ni]; r.live = n.is_used_; r.x[0] = n.pos_.dx(); r.x[1] = n.pos_.dy(); r.x[2] = n.pos_.dz(); double p[3]; pattern(cs.ppat, r.x, ci, ni, p);
 #if DYNAMIC_MODEL_INDEX == 0
             n.momentum_ = vec3(p[0], p[1], p[2]); for (int k = 0; k < 3; k++) r.p[k] = p[k];
@@ -115,17 +123,18 @@ static std::string run_case(const Case& cs, long* steps_done = nullptr) {
 }
 
 static void explore(Result& R) {
-    long cases = 0, steps = 0;
+    long cases = 0, steps = 0, free_slots = 0;
     const int NPAT = 4;
-    for (int pop = 0; pop < 5; pop++) for (int fp = 0; fp < NPAT; fp++) for (int pp = 0; pp < (DYNAMIC_MODEL_INDEX == 0 ? NPAT : 1); pp++) for (int cp = 0; cp < 5; cp++) for (int a = 0; a < 2; a++) for (int b = 0; b < 2; b++) for (int d = 0; d < 2; d++) for (int n = 1; n <= 3; n++) {
-        if (CONTACT_MODEL_INDEX == 0 && cp != 0) continue; if (pop == 0 && cp != 0) continue; if (cp == 4 && !(CONTACT_MODEL_INDEX == 2 && pop == 4)) continue;
-        Case c{pop, fp, pp, cp, a, b, d, n}; cases++; std::string e = run_case(c, &steps);
+    for (int pop = 0; pop < 5; pop++) for (int fp = 0; fp < NPAT; fp++) for (int pp = 0; pp < (DYNAMIC_MODEL_INDEX == 0 ? NPAT : 1); pp++) for (int cp = 0; cp < 5; cp++) for (int a = 0; a < 2; a++) for (int b = 0; b < 2; b++) for (int d = 0; d < 2; d++) for (int n = 1; n <= 3; n++) for (int ids = 0; ids < 4; ids++) for (int sl = 0; sl < 2; sl++) {
+        if (CONTACT_MODEL_INDEX == 0 && cp != 0) continue; if ((ids == 1 || ids == 2) && fp != 3) continue;   /* the two intermediate id assignments only with the position-dependent force pattern */ if (pop == 0 && cp != 0) continue; if (cp == 4 && !(CONTACT_MODEL_INDEX == 2 && pop == 4)) continue;
+        Case c{pop, fp, pp, cp, a, b, d, n, ids, sl}; std::string e = run_case(c, &steps, &free_slots); if (e == "skip") continue; cases++;
         if (!e.empty()) R.violation(clause_of(e) + "|" + (cp ? "coupled" : "uncoupled"), case_json(c) + ": " + e, "case=" + case_text(c) + "\n");
         if (cases % 1500 == 1) R.sample(case_json(c)); }
     R["evaluations"] = steps; R["transitions"] = steps; R["states"] = cases; R["distinct_nontrivial"] = cases; R["traces_validated_against_impl"] = cases;
+    R["cells_integrated_with_free_node_slots"] = free_slots; if (!free_slots && R.violations.empty()) R.internal_error = "no cell ever carried a free node slot (vacuous)";
     R.tables["build"]["contact_model_index"] = CONTACT_MODEL_INDEX; R.tables["build"]["dynamic_model_index"] = DYNAMIC_MODEL_INDEX;
-    R.strings["rule"] = "a case = (population, force pattern, momentum pattern, mutual coupling layout, dt, damping, density, number of steps); the real update_nodes_positions is run step by step next to an array-based implementation of the statement's law (per-node mass = density*V/live nodes; coupled group: average momentum, force and mass, common displacement); positions/momenta to 1e-12, force accumulators exactly zero, static nodes bit-identical, time = floating-point sum of the steps; repeated in each of the 3x2 (contact model, dynamic model) builds";
+    R.strings["rule"] = "a case = (population, force pattern, momentum pattern, mutual coupling layout, dt, damping, density, number of steps, persistent-id assignment, compact node lists / node lists with a free slot left by a real edge collapse); the real update_nodes_positions is run step by step next to an array-based implementation of the statement's law (per-node mass = density*V/live nodes; coupled group: average momentum, force and mass, common displacement); positions/momenta to 1e-12, force accumulators exactly zero, static nodes bit-identical, time = floating-point sum of the steps; repeated in each of the 3x2 (contact model, dynamic model) builds";
     R.assumptions = {"only mutual couplings between non-static (epithelial) cells, as the contact models create them", "tolerance 1e-12 relative to the largest coordinate / momentum of the cell"};
 }
-static int replay(const Replay& rp, Result& R) { Case c; std::istringstream i(rp.get("case")); i >> c.pop >> c.fpat >> c.ppat >> c.coupling >> c.dti >> c.dampi >> c.densi >> c.steps; std::string e1 = run_case(c), e2 = run_case(c); if (e1 != e2) { printf("replay diverged\n"); return 0; } printf("%s\n%s\n", case_json(c).c_str(), e1.c_str()); if (!e1.empty()) { R.violation(clause_of(e1), e1, ""); return 1; } return 0; }
+static int replay(const Replay& rp, Result& R) { Case c; std::istringstream i(rp.get("case")); i >> c.pop >> c.fpat >> c.ppat >> c.coupling >> c.dti >> c.dampi >> c.densi >> c.steps; if (!(i >> c.ids >> c.slots)) { c.ids = 0; c.slots = 0; } std::string e1 = run_case(c), e2 = run_case(c); if (e1 != e2) { printf("replay diverged\n"); return 0; } printf("%s\n%s\n", case_json(c).c_str(), e1.c_str()); if (!e1.empty()) { R.violation(clause_of(e1), e1, ""); return 1; } return 0; }
 int main(int argc, char** argv) { return run_main(argc, argv, "C03", explore, replay); }
